@@ -28,7 +28,9 @@ TLoopQuota == \E b \in BOOLEAN : NextIs("q", b) /\ S!LoopQuota(b) /\ Consume
 TGenPoll == \E b \in BOOLEAN : NextIs("q", b) /\ S!GenPoll(b) /\ Consume
 \* silent steps, enabled only when the next event needs them
 TFireQuota == NextIs("q", TRUE) /\ S!FireQuota /\ Silent
-TFireTerm == NextIs("t", TRUE) /\ gen < MaxGen + GenSlack /\ S!FireTerm /\ Silent
+\* the time limit / injected criterion exists only in the runs that have one (modes term, realtime): elsewhere a positive answer
+\* of the termination test has to be explained by the generation limit
+TFireTerm == NextIs("t", TRUE) /\ ~S!GenLimitReached /\ RunRec.mode \in {"term", "realtime"} /\ S!FireTerm /\ Silent
 TPre == S!PreProcess /\ Silent
 TInitExhausted == S!InitExhausted /\ Silent
 TBuildDone == (~More \/ NextKind("t")) /\ S!BuildDone /\ Silent
